@@ -195,7 +195,8 @@ def check(repo: Repo, run: Run) -> None:
             run.ob("R3", mod.name, f"KdBufParser.{name}", "generator function", True, nontrivial=False)
         # events are yielded as they are read: the yield of from_kd_buf(...) sits in the same loop as its read
         mats = [c for c in rec.calls if c.func.op == "builtin" and c.func.a[0] in pipeline.MATERIALISERS
-                and any(sym.contains(a, raw) for a in c.args)]
+                and any(sym.contains(a, raw) for a in c.args)
+                and c.where.startswith(mod.name + ".")]         # not what the record decoder does with the bytes of ONE record
         run.ob("R3", mod.name, f"KdBufParser.{name}", "records are not collected before being yielded", not mats,
                f"{name} materialises records with {[c.func.a[0] for c in mats]}", nontrivial=False)
     run.floor("R2", "from_kd_buf call sites", n_calls, 2)
